@@ -71,7 +71,7 @@ def gen_source(rng):
             extra.append(rng.choice(["face_lonlat", "face_xyz"]))
         if rng.random() < 0.25:
             extra += ["edge_nodes", rng.choice(["edge_lonlat", "edge_xyz"])]
-        spec["dialect"] = {"lon360": rng.random() < 0.3, "extra": extra, "start": rng.choice([0, 1]), "xyz_scale": rng.choice([1.0, 1.0, 2.0])}
+        spec["dialect"] = {"lon360": rng.random() < 0.3, "extra": extra, "start": rng.choice([0, 1]), "xyz_scale": rng.choice([1.0, 1.0, 2.0]), "edge_flip": rng.random() < 0.5, "int_coords": rng.random() < 0.25}
     elif r < 0.75:
         spec["prov"] = rng.choice(["vertices", "vertices_xyz", "vertices_xyz"])
         spec["dialect"] = {"xyz_scale": rng.choice([1.0, 1.0, 0.5, 2.0, 6371.0])}
@@ -81,6 +81,11 @@ def gen_source(rng):
     else:
         spec["prov"] = "ugrid_file"
         spec["dialect"] = {"lon360": rng.random() < 0.5, "start": rng.choice([0, 1]), "dtype": rng.choice(["int32", "int64"])}
+    # the grid to encode may itself be second-generation (opened from an encoding) and/or a subset
+    if rng.random() < 0.2:
+        spec["reencode"] = rng.sample(["face_edge_connectivity", "edge_face_connectivity", "face_lon", "edge_lon", "node_x", "face_areas"], rng.randint(0, 3))
+    if rng.random() < 0.25:
+        spec["subset"] = [rng.randrange(1000) for _ in range(rng.randint(1, 6))]
     return spec
 
 
